@@ -309,25 +309,25 @@ class RefEnergies:
         self.mols = {}
         self.en = {}
 
-    def mol(self, geom, spin, basis):
-        key = (json.dumps(J(geom)), spin, basis)
+    def mol(self, geom, spin, basis, frozen=None):
+        key = (json.dumps(J(geom)), spin, basis, frozen)
         if key not in self.mols:
             from tangelo import SecondQuantizedMolecule
             if len(self.mols) > 40:
                 self.mols.clear()
             try:
                 with quiet():
-                    self.mols[key] = ("ok", SecondQuantizedMolecule(T(geom), 0, spin, basis=basis, frozen_orbitals=None))
+                    self.mols[key] = ("ok", SecondQuantizedMolecule(T(geom), 0, spin, basis=basis, frozen_orbitals=frozen))
             except Exception as e:
                 self.mols[key] = ("err", repr(e)[:200])
         return self.mols[key]
 
-    def energy(self, geom, spin, solver, basis):
+    def energy(self, geom, spin, solver, basis, frozen=None):
         """-> ("ok", E) | ("err", message)."""
-        key = (json.dumps(J(geom)), spin, solver, basis)
+        key = (json.dumps(J(geom)), spin, solver, basis, frozen)
         if key in self.en:
             return self.en[key]
-        st, mol = self.mol(geom, spin, basis)
+        st, mol = self.mol(geom, spin, basis, frozen)
         if st != "ok":
             res = ("err", mol)
         else:
@@ -357,6 +357,7 @@ def run_oniom_case(case, acc, ref=None):
     low, high = case["low"], case["high"]
     blow, bhigh = case.get("basis_low", "sto-3g"), case.get("basis_high", "sto-3g")
     lk = case.get("link")
+    fz_low, fz_high = case.get("fz_low"), case.get("fz_high")     # frozen_orbitals handed to the model fragment's solvers
     model = model_indices(sel)
     whole = sorted(model) == list(range(n))
     tag = f"{low}-{high}"
@@ -376,19 +377,19 @@ def run_oniom_case(case, acc, ref=None):
     spin_m = nelec(exp_model) % 2
 
     # reference layer energies
-    identical = (low == high and blow == bhigh)
+    identical = (low == high and blow == bhigh and fz_low == fz_high)
     for g, sp, solver, basis in ((geometry, 0, low, blow), (exp_model, spin_m, low, blow), (exp_model, spin_m, high, bhigh)):
         if solver == "FCI" and fci_dets(g, sp, basis) > FCI_MAX_DETS:
             acc.count("oniom_skipped_fci_too_big")
             return
-    need = [("sys_low", geometry, 0, low, blow)]
+    need = [("sys_low", geometry, 0, low, blow, None)]
     if not identical:
-        need += [("mod_high", exp_model, spin_m, high, bhigh), ("mod_low", exp_model, spin_m, low, blow)]
+        need += [("mod_high", exp_model, spin_m, high, bhigh, fz_high), ("mod_low", exp_model, spin_m, low, blow, fz_low)]
     if whole and not lk:
-        need += [("sys_high", geometry, 0, high, bhigh)]
+        need += [("sys_high", geometry, 0, high, bhigh, fz_high)]
     E = {}
-    for name, g, sp, solver, basis in need:
-        st, val = ref.energy(g, sp, solver, basis)
+    for name, g, sp, solver, basis, fz in need:
+        st, val = ref.energy(g, sp, solver, basis, fz)
         if st != "ok":
             acc.count("oniom_skipped_solver_not_applicable_to_fragment")
             acc.out(("oniom-skip", str(val)[:60]))
@@ -400,7 +401,12 @@ def run_oniom_case(case, acc, ref=None):
         with quiet():
             links = [Link(lk["staying"], lk["leaving"], lk["factor"], lk["species"])] if lk else None
             system = Fragment(solver_low=low, options_low={"basis": blow})
-            mfrag = Fragment(solver_low=low, options_low={"basis": blow}, solver_high=high, options_high={"basis": bhigh},
+            ol, oh = {"basis": blow}, {"basis": bhigh}
+            if fz_low is not None:
+                ol["frozen_orbitals"] = fz_low
+            if fz_high is not None:
+                oh["frozen_orbitals"] = fz_high
+            mfrag = Fragment(solver_low=low, options_low=ol, solver_high=high, options_high=oh,
                              selected_atoms=copy.deepcopy(sel), spin=spin_m, broken_links=links)
             oniom = ONIOMProblemDecomposition({"geometry": T(case["geometry"]), "fragments": [system, mfrag]})
             e = float(oniom.simulate())
@@ -440,7 +446,7 @@ def run_oniom_case(case, acc, ref=None):
                           {"E_oniom": e, "E_low_system": E["sys_low"], "diff": e - E["sys_low"]},
                           group="ONIOM.simulate/identical-levels")
     # (3) model == whole system -> high-level energy
-    if whole and not lk:
+    if whole and not lk and fz_low is None:
         acc.ev()
         tol = TOL_E if model == list(range(n)) else TOL_E_PERM
         if not abs(e - E["sys_high"]) <= tol:
@@ -467,6 +473,12 @@ def oniom_cases_of_shard(sh):
     for sp in sh["species_list"]:
         if sp is None:
             yield dict(base, link=None)
+            # solver options with frozen orbitals on the model fragment (heavy-atom systems: there is a core to freeze)
+            if sh["gname"] in ("H2O", "HFHF") and sh["high"] in ("CCSD", "FCI"):
+                yield dict(base, link=None, fz_high=1)
+                if sh["low"] == "CCSD":
+                    yield dict(base, link=None, fz_high=1, fz_low=1)
+                    yield dict(base, link=None, fz_low=1)
             continue
         st, lv = pick_link(geometry, model_indices(sh["selection"]))
         for f in sh.get("factors", {}).get(sp, FACTORS):
